@@ -434,6 +434,13 @@ def make_machine(tier, hooks):
                       'label_mode': label_mode, 'drop_output': drop == 0, 'seed': seed, 'unmark': drop % 3 if drop >= 6 else 0,
                       'downstream': drop in (3, 4, 7, 8)})
 
+        @rule(c=I, roots=st.lists(I, min_size=2, max_size=2), grow=st.lists(I, max_size=3), label_mode=st.sampled_from(['fresh', 'same_boundary']), seed=I)
+        def replace_subcircuit_chained(self, c, roots, grow, label_mode, seed):
+            # several cone outputs that feed each other inside the replacement (users of a mapped output both inside the
+            # replacement and among the surviving host gates)
+            self._do({'op': 'replace_subcircuit', 'c': c, 'roots': roots, 'grow': grow, 'form': 'chain',
+                      'label_mode': label_mode, 'drop_output': False, 'seed': seed, 'unmark': 0, 'downstream': False})
+
         @rule(c=I, xs=st.lists(I, min_size=1, max_size=4), ins=st.lists(I, max_size=2), auto=st.booleans(),
               name=st.sampled_from(['B', 'N', 'S']), slice_=st.booleans(), all_inputs=st.booleans())
         def make_block(self, c, xs, ins, auto, name, slice_, all_inputs):
